@@ -14,7 +14,8 @@ CONSTANTS MaxP,        \* degrees 1..MaxP
           MaxInterior, \* total number of interior knots
           KVals,       \* increasing sequence of interior knot values
           Eps,         \* offset around knots (a rational), Zero = none
-          MaxGenExtra  \* generate(): nc in p+1 .. p+1+MaxGenExtra
+          MaxGenExtra, \* generate(): nc in p+1 .. p+1+MaxGenExtra
+          SpanInterior \* total interior knots of the (cheap) span-search-only family, degrees 1..3
 
 VARIABLES c, out
 vars == <<c, out>>
@@ -32,9 +33,12 @@ UniformKVs(p) == IF p > 5 THEN {} ELSE {GenerateKV(p, nc, FALSE) : nc \in (p + 1
 RawKVs(p) == IF p > 3 THEN {} ELSE
    {AffineKV(U, ab[1], ab[2]) : U \in {MkClamped(p, KVals, pat) : pat \in Patterns(p, KVals, 2)}, ab \in Affines}
 
+SpanOnlyKVs(p) == IF p > 3 THEN {} ELSE
+   {MkClamped(p, KVals, pat) : pat \in Patterns(p, KVals, SpanInterior)} \ ClampedKVs(p)
 KVCases == UNION {{[p |-> p, U |-> U, kind |-> "clamped"] : U \in ClampedKVs(p)}
                   \cup {[p |-> p, U |-> U, kind |-> "uniform"] : U \in UniformKVs(p)}
-                  \cup {[p |-> p, U |-> U, kind |-> "raw"] : U \in RawKVs(p)} : p \in Degrees}
+                  \cup {[p |-> p, U |-> U, kind |-> "raw"] : U \in RawKVs(p)}
+                  \cup {[p |-> p, U |-> U, kind |-> "spanonly"] : U \in SpanOnlyKVs(p)} : p \in Degrees}
 
 Dyadic8(p, U) == LET q == IF p <= 5 THEN 8 ELSE 4 IN
    {RAdd(DomLo(p, U), RMul(R(j, q), RSub(DomHi(p, U), DomLo(p, U)))) : j \in 0..q}
@@ -52,7 +56,7 @@ MaxOrd(p) == IF p <= 4 THEN p + 1 ELSE 3   \* order-7 derivatives exceed 2^31 on
 Eval(u) ==
   LET p == c.p  U == c.U  nc == NumCtrl(p, U)
       sp == SpanDef(p, U, nc, u)
-  IN /\ out.op = "init" /\ c.kind # "util"
+  IN /\ out.op = "init" /\ c.kind \notin {"util", "spanonly"}
      /\ out' = [op |-> "eval", u |-> u, nc |-> nc,
                 span |-> sp,
                 unique |-> SpanUnique(p, U, nc, u),
@@ -67,6 +71,13 @@ Eval(u) ==
                 D |-> [k \in 1..(MaxOrd(p) + 1) |-> ActiveDN(p, U, u, k - 1)]]
      /\ UNCHANGED c
 
+\* span search only, on a much larger family of multiplicity patterns (no rational arithmetic needed)
+EvalSpan(u) ==
+  LET p == c.p  U == c.U  nc == NumCtrl(p, U) IN
+  /\ out.op = "init" /\ c.kind = "spanonly"
+  /\ out' = [op |-> "span", u |-> u, nc |-> nc, span |-> SpanDef(p, U, nc, u), unique |-> SpanUnique(p, U, nc, u),
+             lin |-> FindSpanLinear(p, U, nc, u), bin |-> FindSpanBinary(p, U, nc, u), mult |-> Mult(u, U)]
+  /\ UNCHANGED c
 \* knot-vector utilities
 Generate(nc, clamped) ==
   /\ out.op = "init" /\ c.kind = "util"
@@ -91,7 +102,8 @@ CheckOp(variant) ==
      IN out' = [op |-> "check", U |-> W, nc |-> nc, variant |-> variant, ok |-> CheckKV(c.p, W, nc)]
   /\ UNCHANGED c
 
-Next == \/ c.kind # "util" /\ \E u \in Params(c.p, c.U, c.kind) : Eval(u)
+Next == \/ c.kind \notin {"util", "spanonly"} /\ \E u \in Params(c.p, c.U, c.kind) : Eval(u)
+        \/ c.kind = "spanonly" /\ \E u \in {k \in Breaks(c.U) : TRUE} \cup SpanSamples(c.p, c.U, 1) : EvalSpan(u)
         \/ c.kind = "util" /\ \E nc \in (c.p + 1)..(c.p + 1 + MaxGenExtra) : \E cl \in BOOLEAN : Generate(nc, cl)
         \/ c.kind = "clamped" /\ \E ab \in Affines : Normalize(ab)
         \/ c.kind = "clamped" /\ \E v \in {"ok", "descent", "short", "long"} : CheckOp(v)
@@ -99,8 +111,8 @@ Spec == Init /\ [][Next]_vars
 
 \* ---- identities of the property, on the specification --------------------
 IsEval == out.op = "eval"
-T_SpanUnique == IsEval => out.unique
-T_SpanAlgos  == IsEval => out.lin = out.span /\ out.bin = out.span
+T_SpanUnique == out.op \in {"eval", "span"} => out.unique
+T_SpanAlgos  == out.op \in {"eval", "span"} => out.lin = out.span /\ out.bin = out.span
 T_BasisFuns  == IsEval => out.Nbf = out.Nact
 T_NonNeg     == IsEval => \A j \in 1..Len(out.Nact) : RGe(out.Nact[j], Zero)
 T_Unity      == IsEval => RSum(out.Nact) = One
